@@ -23,13 +23,17 @@ def _conn(pid, what):
     return dict(
         engine="Conn",
         category="model_checking",
-        text=("Environment-action scripts (TLC-generated from Conn.tla, hand-written corner cases, seeded random) are executed on REAL client and "
-              "server sessions over a scripted transport inside testing/synctest; every observable event and every critical section of "
-              "jsonrpc2.Connection (verif hook) is logged and judged by the TLA+ monitor ConnMon (clauses " + what + "), evaluated by TLC over the logs. "
-              "Conn.tla models the connection one action per critical section and is checked exhaustively for small constants."),
+        text=("Conn.tla models jsonrpc2.Connection one action per critical section and is checked exhaustively by TLC for small constants. TLC-generated behaviours "
+              "are replayed on REAL client and server sessions over a scripted transport inside testing/synctest at two granularities: environment-action scripts "
+              "(ConnGen; the SDK runs to quiescence between actions) and lock-step critical-section scripts (ConnGenCS; every updateInFlight call parks at the verif "
+              "gate and the script releases the section TLC chose), plus hand-written corner cases and seeded random scripts (a third with seeded critical-section scheduling). "
+              "Every observable event and every critical section (verif hook) is logged and judged by the TLA+ monitor ConnMon (clauses " + what + "), evaluated by TLC over "
+              "the logs; the strict trace spec ConnTrace must explain every recorded trace (drift otherwise)."
+              + (" In addition every critical section of every connection created by the repository's own tests (tracer hook) is judged by ConnSnap.tla"
+                 + (" (thorough tier)." if pid == "C01" else ".") if pid in ("C01", "C05") else "")),
         design_ref="DESIGN.md section 6 " + pid + ", section 5.1",
-        note="Trusted: TLC; the scripted transport and scripted handlers of the harness; testing/synctest quiescence as the notion of 'step finished'; seam-level scheduling (SDK critical sections run to quiescence between environment actions).",
-        technique="TLA+ spec + TLC; scenario replay on real sessions under synctest; TLA+ monitor over recorded traces",
+        note="Trusted: TLC; the scripted transport and scripted handlers of the harness; testing/synctest quiescence as the notion of 'step finished'; scheduling is controlled at environment-action and critical-section level only (not inside a critical section, not between non-critical-section steps).",
+        technique="TLA+ spec + TLC exhaustive; TLC-generated behaviours replayed on real sessions under synctest (environment-action and lock-step critical-section level); TLA+ monitor and strict trace validation of recorded traces",
     )
 
 CHECKS.update({
@@ -87,11 +91,13 @@ CHECKS.update({
         engine="OAuthFlow", category="model_checking",
         text=("OAuthFlow.tla models AuthorizationCodeHandler.Authorize step by step (challenge, 3 PRM locations, root-AS fallback, 5 AS-metadata locations, predefined endpoints, "
               "CIMD/pre-registered/DCR registration, state and RFC 9207 checks, exchange, install) with the environment choosing the document or HTTP outcome at every fetch; TLC "
-              "checks the seven C15 invariants exhaustively (35k states) and dumps the state graph. A cover of every labelled edge plus seeded behaviours (quick), and every terminal "
+              "checks the seven C15 invariants exhaustively (94k states) and dumps the state graph. Issuer identifiers (metadata issuer, PreregisteredClient.Issuer, RFC 9207 iss) range over "
+              "relation classes: exact/slash, near misses (port, scheme, userinfo, query, fragment, host suffix, extra path segment, strict path prefix, unrelated) which are mismatches, and "
+              "case/trailing-dot variants which are not judged except for iss; the harness concretises each class and re-derives it from the concrete strings. A cover of every labelled edge plus seeded behaviours (quick), and every terminal "
               "behaviour of a reduced configuration plus 120k samples (thorough), are replayed on the real Authorize through a fake RoundTripper and scripted code fetcher; every "
               "observation is judged by the TLA+ monitor OAuthFlowMon."),
         design_ref="DESIGN.md section 6 C15",
-        note="Trusted: TLC; the harness' URL classification and provenance map; finite variant sets; no TLS and no redirects; x/oauth2 sends the token request it is asked to.",
+        note="Trusted: TLC; the harness' URL classification and provenance map; the harness' issuer-relation classifier (c15Rel); finite variant sets; no TLS and no redirects; x/oauth2 sends the token request it is asked to.",
         technique="TLA+ spec + TLC exhaustive; state-graph transition cover and behaviour enumeration replayed on the real code; TLA+ monitor",
     ),
     "C16": dict(
